@@ -180,13 +180,26 @@ func (w *originWalker) walk(v ssa.Value, idx int, e *env, depth int) {
 				return
 			}
 			if al, ok := a.X.(*ssa.Alloc); ok {
-				// field of a local struct copy: the struct value stored into the cell
-				whole := false
-				for _, st := range StoresTo(al) {
-					whole = true
-					w.walk(st.Val, -1, e, depth+1)
+				// field of a local struct: values stored into that field, or the same field of
+				// a struct value stored into the cell as a whole
+				found := false
+				for _, r := range *al.Referrers() {
+					switch u := r.(type) {
+					case *ssa.FieldAddr:
+						if u.Field == a.Field {
+							for _, st := range StoresTo(u) {
+								found = true
+								w.walk(st.Val, idx, e, depth+1)
+							}
+						}
+					case *ssa.Store:
+						if u.Addr == ssa.Value(al) {
+							found = true
+							w.walkField(u.Val, a.Field, e, depth+1)
+						}
+					}
 				}
-				if whole {
+				if found {
 					return
 				}
 			}
@@ -225,8 +238,8 @@ func (w *originWalker) walk(v ssa.Value, idx int, e *env, depth int) {
 	case *ssa.Call:
 		w.call(t, idx, e, depth)
 	case *ssa.Field:
-		// component of a struct value (e.g. a field of a call's struct result)
-		w.walk(t.X, -1, e, depth+1)
+		// component of a struct value: field-sensitive where the struct's construction is visible
+		w.walkField(t.X, t.Field, e, depth+1)
 	default:
 		w.leaf(v, idx, "other")
 	}
@@ -420,4 +433,95 @@ func nearestStore(ld *ssa.UnOp, cell *ssa.Alloc) *ssa.Store {
 		idx = len(b.Instrs)
 	}
 	return nil
+}
+
+// walkField follows field #fi of the struct value v to the values stored into that field.
+func (w *originWalker) walkField(v ssa.Value, fi int, e *env, depth int) {
+	if v == nil || depth > w.o.MaxDepth {
+		w.leaf(v, -1, "other")
+		return
+	}
+	k := seenKey{v, e, 1000 + fi}
+	if w.seen[k] {
+		return
+	}
+	w.seen[k] = true
+	switch t := v.(type) {
+	case *ssa.UnOp:
+		if t.Op == token.MUL {
+			if al, ok := t.X.(*ssa.Alloc); ok {
+				found := false
+				for _, r := range *al.Referrers() {
+					switch u := r.(type) {
+					case *ssa.FieldAddr:
+						if u.Field == fi {
+							for _, st := range StoresTo(u) {
+								found = true
+								w.walk(st.Val, -1, e, depth+1)
+							}
+						}
+					case *ssa.Store:
+						if u.Addr == ssa.Value(al) {
+							found = true
+							w.walkField(u.Val, fi, e, depth+1)
+						}
+					}
+				}
+				if found {
+					return
+				}
+			}
+		}
+	case *ssa.Phi:
+		for _, x := range t.Edges {
+			w.walkField(x, fi, e, depth+1)
+		}
+		return
+	case *ssa.Parameter:
+		fn := t.Parent()
+		pi := ParamIndex(fn, t)
+		for x := e; x != nil; x = x.parent {
+			if x.callee == fn {
+				if arg := ArgForParam(x.call, fn, pi); arg != nil {
+					w.walkField(arg, fi, x.parent, depth+1)
+					return
+				}
+			}
+		}
+		callers := w.p.CallersOf(fn)
+		if len(callers) > 0 {
+			for _, cs := range callers {
+				if arg := ArgForParam(cs.Common(), fn, pi); arg != nil {
+					w.walkField(arg, fi, nil, depth+1)
+				}
+			}
+			return
+		}
+	case *ssa.Extract:
+		if call, ok := t.Tuple.(*ssa.Call); ok {
+			if callee := call.Call.StaticCallee(); callee != nil && w.p.IsOwn(Unwrap2(callee)) && len(Unwrap2(callee).Blocks) > 0 {
+				callee = Unwrap2(callee)
+				ne := &env{fn: call.Parent(), call: &call.Call, callee: callee, parent: e}
+				for _, r := range Returns(callee) {
+					if t.Index < len(r.Results) {
+						w.walkField(ResultOf(r, t.Index), fi, ne, depth+1)
+					}
+				}
+				return
+			}
+		}
+	case *ssa.Call:
+		if callee := t.Call.StaticCallee(); callee != nil && w.p.IsOwn(Unwrap2(callee)) && len(Unwrap2(callee).Blocks) > 0 {
+			callee = Unwrap2(callee)
+			ne := &env{fn: t.Parent(), call: &t.Call, callee: callee, parent: e}
+			for _, r := range Returns(callee) {
+				if len(r.Results) > 0 {
+					w.walkField(ResultOf(r, 0), fi, ne, depth+1)
+				}
+			}
+			return
+		}
+	}
+	// construction not visible: fall back to the whole value
+	w.walk(v, -1, e, depth+1)
 }
